@@ -19,14 +19,14 @@ RULE = ("1-3 models, each with a plain Environment or a SpaceWorld / DiscreteWor
         "models; in ~15% of runs also attach / detach while resident with or without manual (de)registration; "
         "non-trivial = >=2 component types in use, >=1 agent left while another agent with one of its types stayed, and "
         ">=1 re-join; distinct = sequence of (model, op, per-type listing sizes)"
-        "; also: models stepped / completed in mid-history, worlds that are not model.environment, a container-like component that is falsy while empty, joins / leaves / re-joins issued by a System from inside a running timestep, agents that are environments themselves, agents whose class has class components of the same types")
+        "; also: models stepped / completed in mid-history, worlds that are not model.environment, a container-like component that is falsy while empty, joins / leaves / re-joins issued by a System from inside a running timestep, agents that are environments themselves, agents whose class has class components of the same types, joins / leaves spelled addAgent / removeAgent")
 COMPONENTS = {"real": ["ECAgent.Core.Environment.add_agent / remove_agent", "SystemManager.register_component / "
                        "deregister_component / get_components / __getitem__", "Agent.add_component / remove_component",
                        "SpaceWorld / DiscreteWorld / LineWorld / GridWorld add_agent / remove_agent"],
               "stub": ["component classes and agents are harness-defined"]}
 PROBES = ["pool_deleted_and_recreated", "leave_from_middle", "two_models_same_type", "spatial_join_leave", "rejoin",
           "attach_after_leaving", "subclass_component", "resident_touch_run", "manual_register", "reject_join", "reject_leave",
-          "model_completed_then_join_leave", "falsy_component_emptied", "ops_from_inside_a_timestep", "agent_is_an_environment", "agent_class_with_class_components"]
+          "model_completed_then_join_leave", "falsy_component_emptied", "ops_from_inside_a_timestep", "agent_is_an_environment", "agent_class_with_class_components", "deprecated_camelcase_spelling"]
 TECHNIQUE = "deterministic simulation: seeded join/leave/attach/detach histories interleaved over several live models vs a per-model mirror reference; known-finding classifier for resident attach/detach"
 LEVEL_TEXT = ("Seeded search over join/leave/attach/detach histories on 1-3 live models; after every operation, for every "
               "component type and every model, the exposed listing must be element-wise identical (objects, joining order) to "
@@ -143,6 +143,9 @@ def generate(rng, tier):
             else:
                 sub.append({"op": rng.choice(["join_dup", "leave_ghost"]), "k": k})
         ops.insert(rng.randint(0, len(ops)), {"m": mi, "op": "instep", "sub": sub})
+    for o_ in ops:        # the deprecated camelCase spellings (addAgent / removeAgent) are still public API: some calls use them
+        if o_.get("op") in ("join", "leave") and rng.random() < 0.08:
+            o_["camel"] = True
     envagents = []
     if rng.random() < 0.2:       # some agents are environments themselves (their components are listed like anybody's)
         for mi in range(nm):
@@ -327,7 +330,13 @@ def execute(sc, ctx):
                      for ax in range(3)]
                 args = mm.ref.real(p)
                 ctx.probe("spatial_join_leave")
-            ctx.expect_ok("join", mm.env.add_agent, a, *args)
+            if op.get("camel"):
+                ctx.probe("deprecated_camelcase_spelling")
+                if mm.ref.spatial and not mm.ref.inside([0, 0, 0]):
+                    return
+                ctx.expect_ok("join", mm.env.addAgent, a)         # a spatial world places it at the documented default (0, 0, 0)
+            else:
+                ctx.expect_ok("join", mm.env.add_agent, a, *args)
             mm.residents.append(k)
             if k in mm.left_once:
                 ctx.probe("rejoin")
@@ -346,7 +355,7 @@ def execute(sc, ctx):
                 ctx.probe("leave_from_middle")
             mine = {T for T in a.components if T is not PositionComponent}
             others = {T for j in mm.residents if j != k for T in mm.agents[j].components}
-            st, v = ctx.call(mm.env.remove_agent, a.id)
+            st, v = ctx.call(mm.env.removeAgent if op.get("camel") else mm.env.remove_agent, a.id)
             if st != "ok":
                 tag = "F2" if isinstance(v, KeyError) and a.id in touched_agents else None
                 ctx.fail("leave-failed", f"model {mi}: remove_agent({a.id}) raised {type(v).__name__}: {v}", finding=tag)
